@@ -3,6 +3,7 @@ package output
 import (
 	"bytes"
 	"io"
+	"sync"
 
 	"github.com/go-task/task/v3/internal/templater"
 )
@@ -31,15 +32,20 @@ func (g Group) WrapWriter(stdOut, _ io.Writer, _ string, cache *templater.Cache)
 
 type groupWriter struct {
 	writer     io.Writer
+	mutex      sync.Mutex // one command may write from several goroutines (a pipeline, stdout and stderr)
 	buff       bytes.Buffer
 	begin, end string
 }
 
 func (gw *groupWriter) Write(p []byte) (int, error) {
+	gw.mutex.Lock()
+	defer gw.mutex.Unlock()
 	return gw.buff.Write(p)
 }
 
 func (gw *groupWriter) close() error {
+	gw.mutex.Lock()
+	defer gw.mutex.Unlock()
 	if gw.buff.Len() == 0 {
 		// don't print begin/end messages if there's no buffered entries
 		return nil
